@@ -34,8 +34,8 @@ StoppersA == {ErrEv(Obj(<< <<<<97>>, Num(1)>> >>)), HaltEv(VArr, 1)}
 RECURSIVE SeqsUpTo(_, _)
 SeqsUpTo(S, n) == IF n = 0 THEN {<<>>} ELSE LET R == SeqsUpTo(S, n - 1) IN R \cup {Append(r, x) : r \in {q \in R : Len(q) = n - 1}, x \in S}
 
-\* runs of at most n events: values, then possibly one stopper
-Runs(V, T, n) == LET vs == SeqsUpTo({ValEv(v) : v \in V}, n) IN
+\* runs of at most n events: values (and debug messages), then possibly one stopper
+Runs(V, T, n) == LET vs == SeqsUpTo({ValEv(v) : v \in V} \cup (IF Rich THEN {DbgEv(VStr)} ELSE {}), n) IN
                  vs \cup {Append(r, t) : r \in {q \in vs : Len(q) < n}, t \in T}
 
 Tok(name) == [k |-> "long", name |-> name]
